@@ -211,7 +211,7 @@ fn main() {
                     "write_metadata" => o.arg.md = md_of(&mut r, "G"),
                     "write_env" => o.arg.env = if r.u32(..5) == 0 { "none".into() } else { pick(&mut r, &env_toks).into() },
                     "write_sboms" => o.arg.sbom = sbom3(&mut r, &sboms, 0.4),
-                    "write_exec_d" => { o.arg.execd = subset(&mut r, &execs); if r.u32(..4) == 0 { o.arg.execd.insert("gone".into()); } }
+                    "write_exec_d" => { o.arg.execd = subset(&mut r, &execs); if r.u32(..4) == 0 { o.arg.execd.insert(if r.bool() { "gone" } else { "dangling" }.into()); } }
                     "write_file" => o.arg.file = pick(&mut r, &files).into(),
                     _ => {}
                 }
